@@ -35,6 +35,7 @@ var scenarios = []simcore.Scenario{
 	{Name: "transfer-lockstep", Weight: 3, Run: runLockstep},
 	{Name: "transfer-pipelined", Weight: 2, Run: runPipelined},
 	{Name: "cluster-measure", Weight: 1, Run: runClusterMeasure},
+	{Name: "cluster-stream", Weight: 1, Run: runClusterStream},
 }
 
 // ---- what is shipped
